@@ -64,3 +64,19 @@ Proof.
   apply check_acc in H. destruct H as [E _]. apply Bool.eqb_prop in E. rewrite E.
   destruct (a_notif x2); [congruence| |]; destruct isrunning; reflexivity.
 Qed.
+
+(** the notifier behind [stopped()] / [running()] and behind awaiting an address changes at no
+    other event than the end of the actor's task - in particular not when a stop request is
+    accepted or taken out of the mailbox, and not before or while the [stopped] hook runs *)
+Lemma notifier_changes_only_at_task_end s e s' a x x' :
+  step s e = Acc s' -> actors s a = Some x -> actors s' a = Some x' -> a_notif x' <> a_notif x ->
+  exists how, e = EvTaskEnd a how.
+Proof.
+  intros H Hx Hx' N. pose proof (step_nview _ _ _ H) as (A & _).
+  destruct (A _ _ Hx) as (x1 & Hx1 & [E|E]).
+  - exfalso. assert (x1 = x') by congruence. subst x1. unfold nview in E. injection E as E _. congruence.
+  - destruct e; try discriminate E; injection E as ->.
+    + exfalso. cbn [step] in H. rewrite Hx in H. discriminate H.
+    + eauto.
+    + exfalso. cbn [step] in H. rewrite Hx in H. discriminate H.
+Qed.
